@@ -60,10 +60,11 @@ func VerifC18_Help() {
 	required := vInt("required", 0, 2) // 0 no, 1 yes, 2 yes with custom message
 	envBound := vBool("env")
 	nAlias := vInt("aliases", 0, 3)
-	descKind := vInt("desc", 0, 2) // 0 absent, 1 symbolic single line, 2 concrete multi-line
+	descKind := vInt("desc", 0, 2)  // 0 absent, 1 symbolic single line, 2 concrete multi-line
 	atCommand := vBool("atcommand") // help of a command that inherits the option
 	nCmds := vInt("commands", 0, 2)
 	helpCmd := vBool("helpcmd")
+	long := vBool("longnames") // a long program name and long aliases: the synopsis has to wrap
 	desc := vString("description")
 	defS := vString("default")
 	for _, x := range []string{desc, defS} {
@@ -74,6 +75,9 @@ func VerifC18_Help() {
 	vAssume(desc != "")
 
 	opt := New()
+	if long {
+		opt.Self("a-program-with-a-rather-long-name-for-a-command-line-tool", "")
+	}
 	var fns []ModifyFn
 	switch required {
 	case 1:
@@ -96,6 +100,12 @@ func VerifC18_Help() {
 		// aliases given through two separate modifiers
 		fns = append(fns, opt.Alias("t"), opt.Alias("tgt", "T"))
 		names = "--target|-t|--tgt|-T"
+	}
+	if long {
+		vAssume(nAlias == 2)
+		fns = fns[:len(fns)-1]
+		fns = append(fns, opt.Alias("t", "a-very-long-alias-name-for-the-target-option-that-fills-the-line"))
+		names = "--target|-t|--a-very-long-alias-name-for-the-target-option-that-fills-the-line"
 	}
 	switch descKind {
 	case 1:
@@ -154,7 +164,7 @@ func VerifC18_Help() {
 			entries++
 			entryAt = i
 		}
-		if strings.HasPrefix(l, "    -t") || strings.HasPrefix(l, "    --tgt") || strings.HasPrefix(l, "    -T") {
+		if strings.HasPrefix(l, "    -t") || strings.HasPrefix(l, "    --tgt") || strings.HasPrefix(l, "    -T") || strings.HasPrefix(l, "    --a-very") {
 			aliasEntries++
 		}
 	}
